@@ -402,6 +402,15 @@ def run(ck, facts):
     ck.expect(fallback, "R5", "toml_value_from_str/string-fallback", "", "unparseable text no longer falls back to a string value", C.loc(tv))
     rc = tool.fn("config::Config::read_cli_settings")
     ck.expect(any((C.callee(x) or "").endswith("toml_value_from_str") for x in C.calls_in(C.fn_body(rc))), "R5", "read_cli_settings/uses-value-parser", "", "CLI values are not parsed with toml_value_from_str", C.loc(rc))
+    # the text handed to the value parser for a #[diplomat::config(key = <expr>)] is the expression's token text: a string literal keeps its quotes and therefore stays a string
+    # (`kotlin.domain = "2024"` must not turn into the integer 2024, which the string-typed setters then ignore or reject)
+    kvp = tool.fn("<diplomat_tool::config::DiplomatBackendConfigKeyValue as syn::parse::Parse>::parse")
+    kv_nodes = [x for b_ in C.bodies_inl(tool, C.fn_body(kvp), depth=1, exclude=[kvp["path"]]) for x in C.walk(b_)]
+    unq = [x for x in kv_nodes if x.get("k") == "mcall" and x.get("m") == "value" and "LitStr" in (x.get("rty") or x.get("p") or "")]
+    tok = [x for x in kv_nodes if x.get("k") == "mcall" and x.get("m") == "to_token_stream"]
+    ck.expect(bool(tok) and not unq, "R5", "config-attr/value-is-token-text", "value = expr.to_token_stream().to_string()",
+              "the value of a #[diplomat::config] entry is taken from the string literal's contents (LitStr::value) before it is parsed as TOML: a quoted value that looks like a number, boolean or date "
+              "loses its string type, so the source attribute -- the highest-precedence source -- is ignored by string-typed keys", C.loc(kvp))
     ck.expect(any((C.callee(x) or "").endswith("toml_value_from_str") for s_ in gs for x in C.calls_in(s_)), "R5", "gen/uses-value-parser", "", "#[diplomat::config] values are not parsed with toml_value_from_str", C.loc(gen))
 
     # ---------------- R6 the scan for #[diplomat::config] sees every attribute of every struct / impl / mod item
